@@ -370,6 +370,11 @@ def detect_fixes(src):
         "floatStr": float_str_fixed(),
         "floatCast": all(bool(re.search(r"isnan|isfinite|floatTo|<\s*0|>=|lrint|static_cast<int64_t>|\(int64_t\)", kind_case_body(b, "Float"))) for b in (intv, longv)),
     }
+    vm = strip_comments(read(VMOP_CPP))
+    m = re.search(r"case\s+OP_STORE_FIELD_REF\s*:", vm)
+    blk = vm[m.end():vm.find("case OP_", m.end())] if m else ""
+    # OP_STORE_FIELD_REF on a field served by a getter must not leave a plain value in the slot
+    flags["getterRef"] = bool(re.search(r"if\s*\(\s*listenerVar\s*\)\s*\{[^}]*\}\s*else\s*\{[^}]*(throw|setRefValue)", blk))
     return flags
 
 
@@ -456,6 +461,26 @@ def generate():
     L.append("def opcodes : List (String × Nat × Int × Bool) := [")
     L.append(",\n".join("  (%s, %d, %d, %s)" % (lean_str(n), ln, st, "true" if ex else "false") for n, ln, st, ex, _ in optable))
     L.append("]")
+    L.append("")
+    from . import vmactgen
+    rows, problems, catches = vmactgen.generate_acts()
+    L.append("/-- stack / code-pointer effect of one piece of C++ (see tools/vlib/vmactgen.py, VMOps/VM.lean) -/")
+    L.append("inductive Act where")
+    L.append("  | nop | pop (c k : Int) | push (c k : Int) | read (n : Nat) | may | throw | jump | ret | stop | settop")
+    L.append("  | seq (a b : Act) | branch (a b : Act) | try (body handler : Act) | call (body : Act)")
+    L.append("  | setf (i : Nat) (v : Bool) | iff (i : Nat) (a b : Act)")
+    L.append("  deriving Repr, Inhabited")
+    L.append("")
+    L.append("/-- every `case OP_X:` of `ScriptVM::Process` with the helpers it calls inlined, in source order -/")
+    L.append("def vmActs : List (String × Act) := [")
+    L.append(",\n".join("  (%s, %s)" % (lean_str(n), vmactgen.lean_act(a)) for n, a in rows))
+    L.append("]")
+    L.append("")
+    L.append("/-- opcode cases the reader could not translate (must be empty) -/")
+    L.append("def vmActProblems : List String := [%s]" % ", ".join(lean_str(x) for x in problems))
+    L.append("")
+    L.append("/-- every statement inside a `catch (...)` block of ScriptVMOperation.cpp -/")
+    L.append("def vmCatchStatements : List String := [%s]" % ", ".join(lean_str(x) for x in sorted(set(catches))))
     L.append("")
     L.append("/-- which of the design-time undefined behaviours show their repair in the source -/")
     for k in sorted(fixes):
